@@ -27,6 +27,8 @@ var nonEchPool = []string{
 	`alpn="h2,h3"`, `alpn=h2`, `alpn="h3"`, `alpn=h3,h2`, `no-default-alpn`, `port=8443`, `port="443"`,
 	`ipv4hint=192.0.2.1,192.0.2.2`, `ipv4hint="198.51.100.7"`, `ipv6hint="2001:db8::1"`, `ipv6hint=2001:db8::1,2001:db8::2`,
 	`mandatory=alpn,port`, `key65400=abc`, `key65401="ech=decoy"`, `key65402=ech`, `dohpath="/dns-query{?dns}"`, `key65403="a\"b"`,
+	// quoted values with white space inside: a run of spaces, a tab
+	`key65404="build  7"`, "key65405=\"a\tb\"", `key65406="x   y z"`,
 }
 
 func randB64(r *rand.Rand) string {
